@@ -25,7 +25,8 @@ CHECKS = {
             TRUST, "3/C02"),
     "C03": ("fault_enumeration", "fault injection into generated multi-flow scenes, each fault run compared with the fault-free run of the same scene by the output oracle (run completes; bystanders' packets identical; victim exports at most a prefix/subsequence of its ground truth)",
             "Per scene every fault of each kind is enumerated where the space is small (every packet deletion, every truncation point of the victim, every key-log "
-            "subset for TLS 1.3/QUIC, eight unknown suite ids) and sampled where it is not (bit flips, overwrites, foreign UDP payloads over all first bytes and lengths 1..8). "
+            "subset for TLS 1.3/QUIC, the key log cut inside a line, eight unknown suite ids, all 256 values of the ciphertext byte that controls the padding length of a protected CBC record) "
+            "and sampled where it is not (bit flips, overwrites, foreign UDP payloads over all first bytes and lengths 1..8); the repository's real captures get faults at every payload-carrying packet. "
             "The real run() is executed per fault; crash signatures observed are listed in the evidence (none on the repaired tree).",
             TRUST + "; the scene's fault-free run must itself be exact", "3/C03"),
     "C04": ("exploration", "metamorphic runtime oracle over interleavings: per-connection exported packets of the merged capture == whole output of the capture filtered to that connection",
@@ -35,7 +36,7 @@ CHECKS = {
     "C05": ("exploration", "runtime monitor on the real Session.handle_tls_record (record list handed over == sender's record list, exactly once, in order) over exhaustively enumerated deliveries + end-to-end stream equality under perturbed delivery",
             "Real Session objects are fed real packets; for short streams every cut set, every single/double duplicate insertion and every bounded displacement is "
             "enumerated (tens of thousands of delivery histories per quick run), including sequence-number wrap at every offset; full end-to-end runs repeat the relation "
-            "with real cipher suites. Exhaustive only for the short streams enumerated.",
+            "with real cipher suites, with 300-5000-segment deliveries and with the re-cut TCP streams of the repository's real captures. Exhaustive only for the short streams enumerated.",
             TRUST, "3/C05"),
     "C06": ("exploration", "strict independent output oracle (own pcapng reader, frame parser with checksum verification, TCP reassembler) applied to outputs of a record-length x carrying-packet grid and of arbitrary/hostile inputs under random option sets",
             "Every output produced is read by an independent strict reader; the n x k grid checks the re-split rule (at most k segments, concatenation = record), the any-input "
@@ -49,7 +50,7 @@ CHECKS = {
             "All cut positions 0..N of each capture are enumerated (sampled to 120 positions only for captures longer than 120 packets in the quick tier).",
             TRUST, "3/C08"),
     "C09": ("exploration", "metamorphic runtime oracle: byte equality of the output file across ~25-60 deliveries of the same secret set (permutations, line ends, decorations, hex case, DSB placement/splitting, file+DSB, DSB only without -s from several working directories)",
-            "Each scene's baseline delivery is compared byte for byte with every alternative delivery; permutations are exhaustive up to 5 lines.",
+            "Each scene's baseline delivery is compared byte for byte with every alternative delivery (generated scenes and the repository's real captures with their real key logs); permutations are exhaustive up to 5 lines.",
             TRUST, "3/C09"),
     "C10": ("exploration", "output oracle over option configurations: presence, exported server port and client port of every connection of a scene are checked against the documented -p/-m rules, together with exactness of the exported data",
             "Random scenes of 2-5 TLS/QUIC connections to ten different server ports under random -p lists and every -m form (absent, bare, pairs, pairs with commas).",
@@ -62,7 +63,7 @@ CHECKS = {
             "Keys are observed where they are installed for a real connection, so the wiring session -> key_derivator -> decryptor is part of what is checked; every "
             "(suite, version) of the frozen matrix with random secrets, and QUIC connections with Retry, 0-RTT and several key-update generations.",
             "trusted: vlib.refkdf, checked against RFC 5869/9001 vectors at setup", "3/C15"),
-    "C12": ("exploration", "metamorphic runtime oracle: byte equality of the output across 19-27 capture containers of the same packet list (pcapng LE/BE x if_tsresol x if_tsoffset x interspersed unrelated blocks; legacy pcap LE/BE, us and ns)",
+    "C12": ("exploration", "metamorphic runtime oracle: byte equality of the output across 23-40 capture containers of the same packet list (pcapng LE/BE x if_tsresol x if_tsoffset x interspersed unrelated blocks incl. an unused second interface x secrets in a DSB; legacy pcap LE/BE, us and ns), generated scenes and the repository's real captures",
             "Timestamps are drawn from the grid every container of the group can represent, so equality is demanded only where the inputs are equal.",
             TRUST, "3/C12"),
     "C13": ("exploration", "differential runtime oracle: each connection exported with and without -a; subsequence test on data packets, record-by-record parse of the -a stream against the sender's record list, packet-boundary test for the hello records; QUIC per-datagram comparison",
